@@ -68,6 +68,10 @@ def op_script(o):
         return {"op": op, "tag": o["id"]}
     if op == "GetTaggedByInContext":
         return {"op": op, "tag": o["id"], "ctx": o["ctx"]}
+    if op == "IsTaggedBy":
+        return {"op": op, "id": o["id"], "tag": o["tag"]}
+    if op == "CircularDeps":
+        return {"op": op}
     if op == "OverrideParam":
         t = {"int": "int", "string": "string", "bool": "bool", "float": "float64", "null": "nil"}[o["kind"]]
         return {"op": op, "id": o["id"], "val": {"t": t, "v": o["v"]}}
